@@ -100,9 +100,21 @@ structure BState where
   overlay : List Node
 deriving Repr
 
+/-- The state the new client state is built ON (entity.go:1098-1104):
+`if pb != nil && pb.IsStateComputed() { CreateStateWithPreviousBlock(pb, stateDB, round) } else { CreateState(stateDB, …) }`.
+`IsStateComputed` is `stateStatus >= StateSuccessful`, so it holds for a previous block that was itself SYNCED
+(status 5) and not saved yet: its merged nodes live only in its in-memory level DB, and the new state must sit on
+top of them. `CreateStateWithPreviousBlock` falls back to the state DB when the previous block has no client state.
+The result is the list of in-memory nodes under the new state (`[]` = the persistent DB only). -/
+def baseOverlay (prevStatus : Option Nat) (prevState : Option BState) : List Node :=
+  match prevStatus with
+  | none => []                                   -- pb == nil
+  | some st => if st ≥ 4 then (prevState.map (·.overlay)).getD [] else []
+
 /-- `ApplyBlockStateChange(bsc)`; `rootOf` is `bsc.GetRoot()` (what `ComputeProperties` left, `none` if it never
-ran). Returns the result, the block's client state afterwards (`none` = not set: untouched) and its status. -/
-def apply (b : Blk) (cs : ChangeSet) (rootOf : Option Node) : Res × Option BState × Nat :=
+ran); `base` is `baseOverlay` of the previous block. Returns the result, the block's client state afterwards
+(`none` = not set: untouched) and its status. -/
+def apply (b : Blk) (cs : ChangeSet) (rootOf : Option Node) (base : List Node := []) : Res × Option BState × Nat :=
   if b.status ≥ 4 then (.noop, none, b.status)
   else if b.hash ≠ cs.block then (.err .blockHash, none, b.status)
   else if b.stateHash ≠ cs.root then (.err .stateHash, none, b.status)
@@ -116,7 +128,7 @@ def apply (b : Blk) (cs : ChangeSet) (rootOf : Option Node) : Res × Option BSta
         -- MergeDB(nodes, root.hash): the final comparison `ClientStateHash == clientState.GetRoot()` compares
         -- b.stateHash with r.hash; after `computeProperties` r.hash = cs.root = b.stateHash
         if b.stateHash ≠ r.hash then (.err .stateMismatch, none, b.status)
-        else (.applied, some { root := r.hash, overlay := cs.nodes }, 5)
+        else (.applied, some { root := r.hash, overlay := cs.nodes ++ base }, 5)
 
 /-- reading a node of the synced state: the merged nodes first (under their re-stamped hash), then the receiver's DB -/
 def getNode (db : List Node) (st : BState) (h : Hash) : Option Node :=
